@@ -12,6 +12,7 @@ Definition esc1 (k : cfg) (c : Z) : str :=
   if c =? AMP then e_amp else if c =? LT then e_lt else if c =? GT then e_gt
   else if c =? DQ then e_quot
   else if (c =? SQ) && cfg_html_apos k then e_apos
+  else if (c =? 13) && cfg_html_cr k then e_cr
   else if cfg_html_xmlsafe k && negb (xml_char c) then [QM] else [c].
 
 (* the character that escaping + entity decoding delivers as data *)
@@ -24,7 +25,7 @@ Proof. unfold replace1. apply flat_map_app. Qed.
 Lemma html_escape_app k a b : html_escape k (a ++ b) = html_escape k a ++ html_escape k b.
 Proof.
   unfold html_escape.
-  destruct (cfg_html_apos k); destruct (cfg_html_xmlsafe k);
+  destruct (cfg_html_apos k); destruct (cfg_html_xmlsafe k); destruct (cfg_html_cr k);
     rewrite ?map_app, ?replace1_app; reflexivity.
 Qed.
 
@@ -32,33 +33,43 @@ Lemma html_escape_one k c : html_escape k [c] = esc1 k c.
 Proof.
   unfold esc1.
   destruct (c =? AMP) eqn:E1.
-  { apply Z.eqb_eq in E1. subst c. destruct k as [a b [] [] e f g]; reflexivity. }
+  { apply Z.eqb_eq in E1. subst c. destruct k as [a b [] [] e f g []]; reflexivity. }
   destruct (c =? LT) eqn:E2.
-  { apply Z.eqb_eq in E2. subst c. destruct k as [a b [] [] e f g]; reflexivity. }
+  { apply Z.eqb_eq in E2. subst c. destruct k as [a b [] [] e f g []]; reflexivity. }
   destruct (c =? GT) eqn:E3.
-  { apply Z.eqb_eq in E3. subst c. destruct k as [a b [] [] e f g]; reflexivity. }
+  { apply Z.eqb_eq in E3. subst c. destruct k as [a b [] [] e f g []]; reflexivity. }
   destruct (c =? DQ) eqn:E4.
-  { apply Z.eqb_eq in E4. subst c. destruct k as [a b [] [] e f g]; reflexivity. }
+  { apply Z.eqb_eq in E4. subst c. destruct k as [a b [] [] e f g []]; reflexivity. }
   destruct (c =? SQ) eqn:E5.
-  { apply Z.eqb_eq in E5. subst c. destruct k as [a b [] [] e f g]; reflexivity. }
-  assert (Hplain : forall ap : bool, (if ap then replace1 SQ e_apos
-                                 (replace1 DQ e_quot (replace1 GT e_gt (replace1 LT e_lt (replace1 AMP e_amp [c]))))
-                               else replace1 DQ e_quot (replace1 GT e_gt (replace1 LT e_lt (replace1 AMP e_amp [c]))))
-                              = [c]).
-  { intros ap. unfold replace1. cbn [flat_map app]. rewrite E1. cbn [flat_map app].
-    rewrite E2. cbn [flat_map app]. rewrite E3. cbn [flat_map app]. rewrite E4.
-    destruct ap; cbn [flat_map app]; rewrite ?E5; reflexivity. }
-  unfold html_escape. cbn [andb].
+  { apply Z.eqb_eq in E5. subst c. destruct k as [a b [] [] e f g []]; reflexivity. }
+  destruct (c =? 13) eqn:E6.
+  { apply Z.eqb_eq in E6. subst c. destruct k as [a b [] [] e f g []]; reflexivity. }
+  cbn [andb].
+  assert (Hplain : forall (ap cr : bool) (d : Z),
+             (d =? AMP) = false -> (d =? LT) = false -> (d =? GT) = false -> (d =? DQ) = false ->
+             (d =? SQ) = false -> (d =? 13) = false ->
+             (if cr then replace1 13 e_cr
+                (if ap then replace1 SQ e_apos
+                              (replace1 DQ e_quot (replace1 GT e_gt (replace1 LT e_lt (replace1 AMP e_amp [d]))))
+                 else replace1 DQ e_quot (replace1 GT e_gt (replace1 LT e_lt (replace1 AMP e_amp [d]))))
+              else (if ap then replace1 SQ e_apos
+                              (replace1 DQ e_quot (replace1 GT e_gt (replace1 LT e_lt (replace1 AMP e_amp [d]))))
+                    else replace1 DQ e_quot (replace1 GT e_gt (replace1 LT e_lt (replace1 AMP e_amp [d])))))
+             = [d]).
+  { intros ap cr d D1 D2 D3 D4 D5 D6. unfold replace1. cbn [flat_map app]. rewrite D1. cbn [flat_map app].
+    rewrite D2. cbn [flat_map app]. rewrite D3. cbn [flat_map app]. rewrite D4.
+    destruct ap, cr; cbn [flat_map app]; rewrite ?D5; cbn [flat_map app]; rewrite ?D6; reflexivity. }
+  unfold html_escape. cbn zeta.
   destruct (cfg_html_xmlsafe k); cbn [andb map].
   - destruct (xml_char c); cbn [negb].
-    + apply Hplain.
-    + destruct (cfg_html_apos k); reflexivity.
-  - apply Hplain.
+    + now apply Hplain.
+    + now apply Hplain.
+  - now apply Hplain.
 Qed.
 
 Theorem html_escape_flat k v : html_escape k v = flat_map (esc1 k) v.
 Proof.
-  induction v as [|c r IH]; [destruct k as [a b [] [] e f g]; reflexivity|].
+  induction v as [|c r IH]; [destruct k as [a b [] [] e f g []]; reflexivity|].
   change (c :: r) with ([c] ++ r). rewrite html_escape_app, html_escape_one, IH. reflexivity.
 Qed.
 
@@ -70,6 +81,7 @@ Proof.
   destruct (c =? AMP); [reflexivity|]. destruct (c =? LT) eqn:E2; [reflexivity|].
   destruct (c =? GT); [reflexivity|]. destruct (c =? DQ) eqn:E4; [reflexivity|].
   destruct ((c =? SQ) && cfg_html_apos k); [reflexivity|].
+  destruct ((c =? 13) && cfg_html_cr k); [reflexivity|].
   destruct (cfg_html_xmlsafe k && negb (xml_char c)); [reflexivity|].
   cbn [forallb]. now rewrite E2, E4.
 Qed.
@@ -90,6 +102,7 @@ Proof.
     destruct (c =? AMP); [reflexivity|]. destruct (c =? LT); [reflexivity|].
     destruct (c =? GT); [reflexivity|]. destruct (c =? DQ); [reflexivity|].
     destruct (c =? SQ) eqn:E5; [reflexivity|]. cbn [andb].
+    destruct ((c =? 13) && cfg_html_cr k); [reflexivity|].
     destruct (cfg_html_xmlsafe k && negb (xml_char c)); [reflexivity|].
     cbn [mem_Z]. now rewrite E5. }
   revert H IH. generalize (esc1 k c) as a, (flat_map (esc1 k) r) as b.
@@ -142,14 +155,14 @@ Qed.
 
 Definition ok_text_char (k : cfg) (c : Z) : Prop := xml_char (dat k c) = true /\ c <> 13.
 
-Lemma esc1_cases k c :
+Lemma esc1_cases k c : c <> 13 ->
   (esc1 k c = (if c =? AMP then e_amp else if c =? LT then e_lt else if c =? GT then e_gt
                else if c =? DQ then e_quot else e_apos)
    /\ (c = AMP \/ c = LT \/ c = GT \/ c = DQ \/ c = SQ))
   \/ (esc1 k c = [dat k c] /\ (c =? AMP) = false /\ (c =? LT) = false /\ (c =? GT) = false /\ (c =? DQ) = false
       /\ ((c =? SQ) = false \/ cfg_html_apos k = false)).
 Proof.
-  unfold esc1, dat.
+  intros H13. apply Z.eqb_neq in H13. unfold esc1, dat. rewrite H13. cbn [andb].
   destruct (c =? AMP) eqn:E1. { left. split; [reflexivity|]. apply Z.eqb_eq in E1. tauto. }
   destruct (c =? LT) eqn:E2. { left. split; [reflexivity|]. apply Z.eqb_eq in E2. tauto. }
   destruct (c =? GT) eqn:E3. { left. split; [reflexivity|]. apply Z.eqb_eq in E3. tauto. }
@@ -179,7 +192,7 @@ Proof.
   - inversion Hv as [|? ? [Hx H13] Hr]; subst.
     change (c :: r) with ([c] ++ r). rewrite html_escape_app, html_escape_one, hrun_app.
     assert (Hstep : exists rb1, hrun k h (esc1 k c) = Ok (set_hmode h (HText (acc ++ [dat k c]) false rb1))).
-    { destruct (esc1_cases k c) as [[He Hc]|(He & E1 & E2 & E3 & E4 & E5)].
+    { destruct (esc1_cases k c H13) as [[He Hc]|(He & E1 & E2 & E3 & E4 & E5)].
       - rewrite He. exists 0. rewrite (text_entity k h acc false rb c Hm Hs Hc).
         assert (Hd : dat k c = c).
         { unfold dat. destruct Hc as [->|[->|[->|[->| ->]]]]; cbn; now rewrite andb_false_r. }
@@ -243,7 +256,7 @@ Proof.
     change (c :: r) with ([c] ++ r). rewrite html_escape_app, html_escape_one, hrun_app.
     assert (Hq' : q = DQ \/ q = SQ) by tauto.
     assert (Hstep : hrun k h (esc1 k c) = Ok (set_hmode h (HAttrVal nm ats an q (acc ++ [dat k c]) false))).
-    { destruct (esc1_cases k c) as [[He Hc]|(He & E1 & E2 & E3 & E4 & E5)].
+    { destruct (esc1_cases k c H13) as [[He Hc]|(He & E1 & E2 & E3 & E4 & E5)].
       - rewrite He. rewrite (attr_entity k h nm ats an q acc false c Hm Hq' Hc).
         assert (Hd : dat k c = c).
         { unfold dat. destruct Hc as [->|[->|[->|[->| ->]]]]; cbn; now rewrite andb_false_r. }
